@@ -57,6 +57,11 @@ CLAIMS['C12'] = dict(level='other', technique='single-thread reading of the stat
     note='Same trust base as C02 for reviewed guards; lock part shares the provenance abstraction of C15.',
     ref='§4 C12')
 
+CLAIMS['C11'] = dict(level='other', technique='flow-sensitive effect analysis on MIR: mutation events (stores and container mutators on fields of the three raw state structs, calls of may-mutate functions from a call-graph fixpoint, fresh objects exempt) against Err exits (Err literals and ?-propagation with source callee, success-edge refinement), interprocedural "may fail after mutating" fixpoint',
+    text='Decides validate-before-mutate: in every Result-returning function reachable from the public API no path leads from a mutation of model state to an error return, unless the pair is reviewed as infeasible (17 pairs, with reasons and checked premises) or is a known finding (35 pairs in the load/merge and move paths, both classes confirmed by failing runs). One confirmed defect (set_reference_target) was repaired. Any new early mutation, validation moved below a write, or removed rollback shows up as a new pair.',
+    note='Path-insensitive: feasibility of a reported pair is decided by triage, not by the checker; reviewed pairs are keyed exactly (function, mutation, error source).',
+    ref='§4 C11')
+
 NA = {
     'C16': 'serialisability quantifies over interleavings and compares with sequential runs; the only static route (two-phase/reduction analysis) rejects essentially every public operation of the present design, so it cannot separate code that holds the property from code that does not',
     'C20': 'statement about numeric results (exactness, correct rounding, overflow per width) computed by std parsers for all texts; no static argument in reach bounds these run-time quantities',
